@@ -245,7 +245,7 @@ def replay_source(chk, h, threads):
   bad = set(h['bad'])
   if h['start'] != 0 or h['stop'] != h['len']:
     return False
-  data = c09.BadSeq(h['len'], bad)
+  data = c09.BadSeq(h['len'], bad, sliceable=h.get('sliceable', True))
   if data is None:
     return False
   ds = io.SequenceDataSource(data, ignore_error=True)
@@ -316,7 +316,7 @@ def body(chk):
     chk.machinery_failure(f'RangeIter export failed: {gen.error_kind} {gen.error_name}')
   done, n_src = set(), 0
   for h in gen.histories:
-    key = (h['len'], tuple(sorted(h['bad'])))
+    key = (h['len'], tuple(sorted(h['bad'])), h.get('sliceable', True))
     if key in done or h['start'] != 0 or h['stop'] != h['len']:
       continue
     done.add(key)
